@@ -34,8 +34,8 @@ Proof. unfold flags_mono. intros a b c H1 H2. tauto. Qed.
 Lemma fm_root_damage : forall st d, flags_mono st (root_damage st d).
 Proof.
   intros st d. unfold root_damage, flags_mono.
-  destruct (rs_contains rsfuel (r_damage st) d) as [[|]|]; [tauto| |cbn; tauto].
-  destruct (rs_add rsfuel (r_damage st) d); cbn; tauto.
+  destruct (rs_contains (r_fuel st) (r_damage st) d) as [[|]|]; [tauto| |cbn; tauto].
+  destruct (rs_add (r_fuel st) (r_damage st) d); cbn; tauto.
 Qed.
 
 Lemma fm_expose : forall st id ex, flags_mono st (win_expose st id ex).
